@@ -130,6 +130,12 @@ struct Obj {
     unsigned char pucn;
     char pcb;
     int g25;
+    // fields of the wide integer types (Param/Wide.lean: unsigned short, unsigned, long, unsigned long)
+    unsigned short pus, pusb;
+    unsigned pun, punr;
+    long pl, pln;
+    unsigned long pul;
+    int g30;
     // metadata with entries of other shapes in front of the range
     float pfs, pfd;
     int pis, pos;
@@ -228,6 +234,7 @@ struct Obj {
         aib[0] = 0; aib[1] = 150; aib[2] = 100; aib[3] = -7;
         aicb[0] = 0; aicb[1] = -100; aicb[2] = 127;
         psb = 12345; pucn = 200; pcb = -100;
+        pus = 50000; pusb = 7; pun = 3000000000u; punr = 100; pl = -5; pln = 123456789012L; pul = 77;
         pfs = 1.0f; pfd = 0.5f; pis = 3; pos = 1;
         afsp[0] = 0.f; afsp[1] = 0.5f; afsp[2] = -1.f;
         ais[0] = 1; ais[1] = 2;
@@ -282,7 +289,7 @@ struct Obj {
         for(int i = 0; i < 5; ++i) prm[i] = 10 * i;
         for(int i = 0; i < 4; ++i) arr[i] = 3 - i;
         memset(strhuge, 0, sizeof(strhuge)); strcpy(strhuge, "huge");
-        g27 = g28 = g29 = 0x5a5a5a5a;
+        g27 = g28 = g29 = g30 = 0x5a5a5a5a;
         g19 = g20 = g21 = g22 = g23 = g24 = g25 = g26 = 0x5a5a5a5a;
         g0 = g1 = g2 = g3 = g4 = g5 = g6 = g6b = g7 = g8 = g9 = g10 = g11 = g12 = g13 = g14 = g15 = g16 = g17 = g18 = 0x5a5a5a5a;
     }
@@ -385,6 +392,14 @@ const rtosc::Ports Obj::ports = {
     rParamI(psb, rLinear(-40000, 40000), "short storage, bounds outside short"),
     {"pucn::c", rProp(parameter) rMap(min, -10) rMap(max, 300) rDoc("unsigned char, negative minimum"), NULL, rParamCb(pucn)},
     {"pcb::c", rProp(parameter) rMap(min, -200) rMap(max, 100) rDoc("char, minimum below -128"), NULL, rParamCb(pcb)},
+    // fields of the wide integer types
+    rParamI(pus, rLinear(0, 60000), "unsigned short storage"),
+    rParamI(pusb, rLinear(3, 70000), "unsigned short storage, maximum above 65535"),
+    rParamI(pun, "unsigned storage, no range"),
+    rParamI(punr, rLinear(10, 2000000000), "unsigned storage"),
+    rParamI(pl, rLinear(-2000000000, 2000000000), "long storage"),
+    rParamI(pln, rMap(min, -100), "long storage, lower bound only"),
+    rParamI(pul, rLinear(5, 1000000), "unsigned long storage"),
     // other metadata entries in front of the range
     rParamF(pfs, rSpecial(disable), rLinear(0, 2.5), "rSpecial first"),
     rParamF(pfd, rShort("dec"), rMap(unit, Hz), rDefault(0.5), rCentered, rLinear(-2, 2), "decorated"),
@@ -552,7 +567,7 @@ struct Desc {
     const char *id;
     int tbl;              // 0 = Obj::ports, 1 = Flat::ports, 2 = Vo::ports
     char kind;            // P F I O T S  f t i o m
-    const char *storage;  // i8 u8 i16 i32 f32 b s
+    const char *storage;  // i8 u8 i16 i32 u16 u32 i64 u64 f32 b s
     size_t off, elem, len, stride;   // element k lives at off + k*stride, elem bytes
 };
 #define D(name, kind, st) {#name, 0, kind, st, offsetof(Obj, name), sizeof(((Obj *)0)->name), 1, sizeof(((Obj *)0)->name)}
@@ -582,6 +597,7 @@ static const Desc descs[] = {
     {"vm", 0, 'm', "b", offsetof(Obj, voices) + offsetof(Voice, enabled), sizeof(bool), 4, sizeof(Voice)},
     DA(abig, 'i', "i32"), DA(tbig, 't', "b"), DA(fbig, 'f', "f32"), DA(strbig, 'S', "s"),
     DA(aib, 'i', "i32"), DA(aicb, 'i', "i8"), D(psb, 'I', "i16"), D(pucn, 'P', "u8"), D(pcb, 'P', "i8"),
+    D(pus, 'I', "u16"), D(pusb, 'I', "u16"), D(pun, 'I', "u32"), D(punr, 'I', "u32"), D(pl, 'I', "i64"), D(pln, 'I', "i64"), D(pul, 'I', "u64"),
     D(pfs, 'F', "f32"), D(pfd, 'F', "f32"), D(pis, 'I', "i32"), D(pos, 'O', "i32"), DA(afsp, 'f', "f32"), DA(ais, 'i', "i32"),
     D(d1, 'I', "i32"),
     D(d2, 'F', "f32"),
@@ -688,6 +704,10 @@ static std::string state_of(const Desc &d, const void *o, bool raw = false)
         else if(st == "i8") s += std::to_string((int)*(const signed char *)p);
         else if(st == "u8") s += std::to_string((int)*p);
         else if(st == "i16") { short v; memcpy(&v, p, 2); s += std::to_string((int)v); }
+        else if(st == "u16") { unsigned short v; memcpy(&v, p, 2); s += std::to_string((unsigned)v); }
+        else if(st == "u32") { unsigned v; memcpy(&v, p, 4); s += std::to_string(v); }
+        else if(st == "i64") { long v; memcpy(&v, p, 8); s += std::to_string(v); }
+        else if(st == "u64") { unsigned long v; memcpy(&v, p, 8); s += std::to_string(v); }
         else { int v; memcpy(&v, p, 4); s += std::to_string(v); }
     }
     return s;
